@@ -301,6 +301,16 @@ def match_known(pid, mismatch):
 
 # ----------------------------------------------------------------------------- result
 
+def _additions(pid):
+    """what was added to a check after its rule text was written (the same text MANIFEST.json carries)"""
+    try:
+        from driver.gen_manifest import EXTRA
+        t = EXTRA.get(pid, "")
+        return (" Added since: " + t) if t else ""
+    except Exception:
+        return ""
+
+
 class Run:
     """Collects the outcome of one check run and writes evidence / verdict."""
 
@@ -349,7 +359,7 @@ class Run:
             "traces_validated_against_impl": self.traces,
             "evaluations": self.evaluations,
             "distinct_nontrivial": self.nontrivial,
-            "rule": self.rule,
+            "rule": self.rule + _additions(self.pid),
             "samples": self.samples[:8] if self.samples else ["(none)"],
             "exhaustive": self.exhaustive,
             "known_findings_hit": {k: v[1] for k, v in known_hits.items()},
